@@ -48,6 +48,18 @@ fn pick_str(g: &mut Genes, pool: &[&str]) -> String {
     pool[g.pick(pool.len())].to_string()
 }
 
+/// an edit of the node that was created and attached just before (it is still the newest pool member)
+fn follow_up_edit(g: &mut Genes, data: &[&str]) -> Json {
+    let n = json!([65535, "recent"]);
+    let off = g.pick(5);
+    match g.weighted(&[4, 2, 2, 2]) {
+        0 => json!({"op": "split_text", "n": n, "off": off}),
+        1 => json!({"op": "insert_data", "n": n, "off": off, "s": pick_str(g, data)}),
+        2 => json!({"op": "delete_data", "n": n, "off": off, "cnt": 1 + g.pick(3)}),
+        _ => json!({"op": "replace_data", "n": n, "off": off, "cnt": g.pick(3), "s": pick_str(g, data)}),
+    }
+}
+
 pub fn gen_history(g: &mut Genes, cfg: &HistCfg) -> Json {
     let nd = if cfg.max_doc == 0 { START_DOCS.len() } else { cfg.max_doc.min(START_DOCS.len()) };
     let d1 = g.pick(nd);
@@ -108,8 +120,12 @@ pub fn gen_history(g: &mut Genes, cfg: &HistCfg) -> Json {
                         _ => json!({"op": "create_pi", "d": d, "name": pick_str(g, names), "s": pick_str(g, data)}),
                     };
                     let target = ["element", "detached-element", "recent"][g.weighted(&[4, 3, 3])];
+                    let is_chardata = matches!(create["op"].as_str(), Some("create_text") | Some("create_cdata") | Some("create_comment"));
                     ops.push(create);
                     ops.push(json!({"op": "append", "p": [rp, target], "c": newest}));
+                    if is_chardata && g.chance(1, 3) {
+                        ops.push(follow_up_edit(g, data));
+                    }
                 }
                 2 => {
                     let pspec = json!([rp, "element"]);
@@ -119,8 +135,12 @@ pub fn gen_history(g: &mut Genes, cfg: &HistCfg) -> Json {
                         2 => json!({"op": "create_cdata", "d": d, "s": pick_str(g, data)}),
                         _ => json!({"op": "create_comment", "d": d, "s": pick_str(g, data)}),
                     };
+                    let is_chardata = !matches!(create["op"].as_str(), Some("create_element"));
                     ops.push(create);
                     ops.push(json!({"op": "insert_before", "p": pspec.clone(), "c": newest, "r": [g.raw(), "child-of", pspec]}));
+                    if is_chardata && g.chance(1, 2) {
+                        ops.push(follow_up_edit(g, data));
+                    }
                 }
                 _ => {
                     ops.push(json!({"op": "create_attr", "d": d, "name": pick_str(g, names)}));
